@@ -11,9 +11,27 @@ def digest_renamed(chunk, inv):
     return digest_chunk(c)
 
 
+def synchronised(k, seed):
+    """2-3 ceilometers sampling at exactly the same times, each reading the layer at its own height"""
+    from .scenes import _df
+    rng = random.Random(seed * 39 + k)
+    names = rng.choice([['A', 'B'], ['9', '10'], ['b', 'A', 'c']])
+    n = rng.choice([21, 41, 33])          # odd: with a 50 % look-back the cut falls inside a group of simultaneous hits
+    offs = {c: rng.choice([0, 100, 250]) * i for i, c in enumerate(names)}
+    rows = []
+    for t in range(n):
+        for c in names:
+            rows.append((c, -900 + 30 * t, 900 + offs[c] + rng.uniform(0, 90), 1))     # every hit its own height
+    rng.shuffle(rows)
+    return _df(rows), {'k': k, 'seed': seed, 'layout': 'synchronised_ceilometers', 'ceilos': names, 'rows': len(rows)}
+
+
 def check(k, seed):
     rng = random.Random(seed * 37 + k)
-    df, desc = scene(3 * k + (6 if k % 2 else 0), seed)      # favour multi-ceilometer / coincident layouts
+    if k % 3 == 1:
+        df, desc = synchronised(k, seed)
+    else:
+        df, desc = scene(3 * k + (6 if k % 2 else 0), seed)      # favour multi-ceilometer / coincident layouts
     names = sorted(set(map(str, df['ceilo'])))
     if len(names) < 2:
         df = df.copy()
@@ -23,6 +41,12 @@ def check(k, seed):
         names = sorted(set(map(str, df['ceilo'])))
     prms = prms_variant(k, seed)
     prms['BASE_LVL_LOOKBACK_PERC'] = rng.choice([100, 50, 30, 34])
+    if k % 3 == 1:
+        # the look-back cut must fall inside a group of simultaneous hits, and the percentile must feel one swapped hit
+        prms['BASE_LVL_LOOKBACK_PERC'] = 50
+        prms.pop('EXCLUDE_FOR_BASE_HEIGHT_CALC', None)
+        prms['BASE_LVL_HEIGHT_PERC'] = rng.choice([50, 0, 100, 37])
+        prms.pop('MSA', None)
     if rng.random() < 0.5:
         prms['EXCLUDE_FOR_BASE_HEIGHT_CALC'] = [rng.choice(names)]
     fails = []
